@@ -32,3 +32,178 @@ package smtp
 //@     invariant err == nil
 //@     split on sim,out,content by state: BOL= r.state == 0 | DOT= r.state == 1 | DOTCR= r.state == 2 | CR= r.state == 3 | MID= r.state == 4 | END= r.state == 5
 //@     split on sim,out,content by octet: dot= c == '.' | cr= c == 13 | lf= c == 10 | other= c != '.' && c != 13 && c != 10
+
+//@ contract (*lineLimitReader).Read(r, b) (n, err)
+//@   prop C19 C05
+//@   requires r != nil && r.R != nil
+//@   requires r.curLineLength >= 0 && r.LineLimit >= 0 && r.LineLimit < 9223372036854775807
+//@   modifies r.curLineLength, b[*]
+//@   ensures count: 0 <= n && n <= len(b)
+//@   ensures stable: r.LineLimit == old(r.LineLimit) && r.curLineLength >= 0
+//@   ensures sticky: old(r.curLineLength) > r.LineLimit && r.LineLimit > 0 ==> err == ErrTooLongLine && n == 0
+//@   ensures refusal-justified: err == ErrTooLongLine ==> r.LineLimit > 0 && n == 0 && (old(r.curLineLength) > r.LineLimit || exists k :: 1 <= k && k <= len(b) && lrun(elemsOf(b), offOf(b), old(r.curLineLength), k) > r.LineLimit witness rangeindex + 2)
+//@   ensures refused-state: err == ErrTooLongLine ==> r.curLineLength > r.LineLimit
+//@   ensures tracks-run: err == nil && r.LineLimit > 0 ==> r.curLineLength == lrun(elemsOf(b), offOf(b), old(r.curLineLength), n)
+//@   ensures delivered-within-limit: err == nil && r.LineLimit > 0 ==> forall k :: 0 <= k && k <= n ==> lrun(elemsOf(b), offOf(b), old(r.curLineLength), k) <= r.LineLimit
+//@   ensures unlimited-transparent: r.LineLimit == 0 ==> r.curLineLength == old(r.curLineLength) && err != ErrTooLongLine
+//@   loop 1:
+//@     invariant -1 <= rangeindex && rangeindex < n && 0 <= n && n <= len(b)
+//@     invariant r.LineLimit == old(r.LineLimit) && r.LineLimit > 0 && old(r.curLineLength) <= r.LineLimit
+//@     invariant 0 <= r.curLineLength && r.curLineLength <= r.LineLimit
+//@     invariant run: r.curLineLength == lrun(elemsOf(b), offOf(b), old(r.curLineLength), rangeindex + 1)
+//@     invariant within: forall k :: 0 <= k && k <= rangeindex + 1 ==> lrun(elemsOf(b), offOf(b), old(r.curLineLength), k) <= r.LineLimit
+
+// ---------------------------------------------------------------------------------------
+// Connection state: reset, Close, reply writing
+// ---------------------------------------------------------------------------------------
+
+//@ contract (*Conn).reset(c)
+//@   prop C03 C05 C06 C07 C08
+//@   requires connWF(c) && sessOK(c)
+//@   modifies c.bdatPipe, c.bdatStatus, c.bytesReceived, c.fromReceived, c.recipients, c.cbReset, c.bdatPipe.state
+//@   ensures tx-discarded: !c.fromReceived && len(c.recipients) == 0 && c.bdatPipe == nil && c.bdatStatus == nil && c.bytesReceived == 0
+//@   ensures @C07 pipe-not-left-open: old(c.bdatPipe) != nil ==> old(c.bdatPipe).state != 0 && (old(old(c.bdatPipe).state) == 0 ==> old(c.bdatPipe).state == 1)
+//@   ensures @C03 reset-signalled: c.cbReset == old(c.cbReset) + (c.session != nil ? 1 : 0)
+
+//@ contract (*Conn).Close(c) (err)
+//@   prop C03 C07 C08 C20
+//@   requires c != nil && c.conn != nil && sessOK(c)
+//@   modifies c.bdatPipe, c.session, c.closed, c.cbLogout, c.bdatPipe.state, c.session.loggedOut
+//@   ensures closed: c.closed && c.session == nil && c.bdatPipe == nil
+//@   ensures @C08 logout-on-close: old(c.session) != nil ==> old(c.session).loggedOut && c.cbLogout == old(c.cbLogout) + 1
+//@   ensures @C08 idempotent: old(c.session) == nil ==> c.cbLogout == old(c.cbLogout)
+//@   ensures @C07 pipe-not-left-open: old(c.bdatPipe) != nil ==> old(c.bdatPipe).state != 0 && (old(old(c.bdatPipe).state) == 0 ==> old(c.bdatPipe).state == 1)
+
+//@ contract (*Conn).writeResponse(c, code, enhCode, text)
+//@   prop C04 C17
+//@   requires c != nil && c.server != nil && c.conn != nil && c.text != nil
+//@   ghostset c.replies = old(c.replies) + 1
+//@   ghostset c.finals = old(c.finals) + (code >= 300 && code < 400 ? 0 : 1)
+//@   ghostset c.lastCode = code
+//@   modifies c.replies, c.finals, c.lastCode
+//@   ensures c.replies == old(c.replies) + 1 && c.finals == old(c.finals) + (code >= 300 && code < 400 ? 0 : 1) && c.lastCode == code
+
+//@ contract (*Conn).protocolError(c, code, ec, msg)
+//@   prop C04 C08 C19
+//@   requires connInv(c) && !c.closed
+//@   modifies c.errCount, c.replies, c.finals, c.lastCode, c.bdatPipe, c.session, c.closed, c.cbLogout, c.bdatPipe.state, c.session.loggedOut
+//@   ensures inv: connInv(c)
+//@   ensures @C19 counted: c.errCount == old(c.errCount) + 1
+//@   ensures @C19 gives-up: c.errCount > 3 ==> c.closed && c.finals == old(c.finals) + (code >= 300 && code < 400 ? 1 : 2) && c.lastCode == 500
+//@   ensures @C04 one-reply: c.errCount <= 3 ==> c.finals == old(c.finals) + (code >= 300 && code < 400 ? 0 : 1) && c.lastCode == code && c.closed == old(c.closed) && c.session == old(c.session) && c.bdatPipe == old(c.bdatPipe) && c.cbLogout == old(c.cbLogout)
+
+// ---------------------------------------------------------------------------------------
+// DATA
+// ---------------------------------------------------------------------------------------
+
+//@ contract newDataReader(c) (dr)
+//@   prop C01 C02 C06
+//@   requires c != nil && c.text != nil && c.server != nil && c.text.R != nil
+//@   fresh dr
+//@   ghostset dr.start = c.text.R.pos
+//@   ghostset dr.delivered = 0
+//@   ghostset dr.limit = c.server.MaxMessageBytes
+//@   ensures reader-starts-here: drInv(dr) && dr.r == c.text.R && dr.start == c.text.R.pos && dr.state == 0 && dr.delivered == 0
+//@   ensures @C06 budget-is-limit: dr.limited == (c.server.MaxMessageBytes > 0) && (dr.limited ==> dr.n == c.server.MaxMessageBytes && dr.limit == c.server.MaxMessageBytes)
+
+//@ contract (*Conn).handleData(c, arg)
+//@   prop C02 C03 C04 C08
+//@   requires connInv(c) && !c.closed && !c.server.LMTP
+//@   modifies c.*, c.bdatPipe.state, c.text.R.pos, c.text.R.iofail, c.text.R.unreadable
+//@   ensures inv: connInv(c) && !c.closed
+//@   ensures @C04 refusal-is-one-5xx: c.replies == old(c.replies) + 1 ==> c.finals == old(c.finals) + 1 && c.lastCode >= 500 && c.lastCode <= 599 && c.cbData == old(c.cbData) && c.cbReset == old(c.cbReset) && c.text.R.pos == old(c.text.R.pos)
+//@   ensures @C04 accepted-is-354-plus-one-final: c.replies != old(c.replies) + 1 ==> c.replies == old(c.replies) + 2 && c.finals == old(c.finals) + 1 && c.cbData == old(c.cbData) + 1
+//@   ensures @C03 out-of-order-refused: !old(c.fromReceived) || len(old(c.recipients)) == 0 || old(c.bdatPipe) != nil ==> c.replies == old(c.replies) + 1
+//@   ensures @C03 transaction-ends: c.replies == old(c.replies) + 2 ==> !c.fromReceived && len(c.recipients) == 0 && c.bdatPipe == nil && c.cbReset == old(c.cbReset) + 1
+//@   ensures @C02 resync: c.replies == old(c.replies) + 2 ==> dS(c.text.R.in, old(c.text.R.pos), c.text.R.pos) == 5 || c.text.R.iofail
+//@   ensures @C02 stream-only-forward: c.text.R.pos >= old(c.text.R.pos) && c.text == old(c.text) && c.text.R == old(c.text.R)
+
+// ---------------------------------------------------------------------------------------
+// Greeting, MAIL, RCPT
+// ---------------------------------------------------------------------------------------
+
+//@ contract (*Conn).writeError(c, code, enhCode, err)
+//@   prop C04 C17
+//@   requires c != nil && c.server != nil && c.conn != nil && c.text != nil && err != nil && errOK(err)
+//@   modifies c.replies, c.finals, c.lastCode
+//@   ensures c.replies == old(c.replies) + 1
+//@   ensures @C17 smtp-error-verbatim: istype(err, "*SMTPError") ==> c.lastCode == asref(err, "*SMTPError").Code
+//@   ensures @C17 generic-code: !istype(err, "*SMTPError") ==> c.lastCode == code
+//@   ensures c.finals == old(c.finals) + (c.lastCode >= 300 && c.lastCode < 400 ? 0 : 1)
+
+//@ contract (*Conn).handleGreet(c, enhanced, arg)
+//@   prop C03 C04 C08 C12
+//@   requires connInv(c) && !c.closed
+//@   modifies c.*, c.bdatPipe.state
+//@   before Backend.NewSession: @C03 greeting-name-visible: c.helo == domain && domain != ""
+//@   ensures inv: connInv(c) && !c.closed
+//@   ensures @C04 one-reply: c.replies == old(c.replies) + 1
+//@   ensures @C03 regreeting-ends-transaction: old(c.session) != nil && c.helo != old(c.helo) ==> !c.fromReceived && len(c.recipients) == 0 && c.bdatPipe == nil
+//@   ensures @C03 greeted-means-session: c.helo != "" ==> c.session != nil
+//@   ensures @C08 session-kept-or-created: old(c.session) != nil ==> c.session == old(c.session) && c.cbNew == old(c.cbNew)
+//@   ensures @C08 no-logout: c.cbLogout == old(c.cbLogout)
+//@   ensures no-other-callbacks: c.cbMail == old(c.cbMail) && c.cbRcpt == old(c.cbRcpt) && c.cbData == old(c.cbData)
+
+//@ contract parseHelloArgument(arg) (domain, err)
+//@   prop C03 C19
+//@   ensures err == nil ==> domain != ""
+
+//@ contract (*Conn).handleMail(c, arg)
+//@   prop C03 C04 C06 C08 C11 C12
+//@   requires connInv(c) && !c.closed
+//@   modifies c.binarymime, c.fromReceived, c.replies, c.finals, c.lastCode, c.cbMail
+//@   ensures inv: connInv(c) && !c.closed
+//@   ensures @C04 one-reply: c.replies == old(c.replies) + 1
+//@   ensures @C03 out-of-order-refused: old(c.helo) == "" || old(c.bdatPipe) != nil ==> c.lastCode == 502 && c.cbMail == old(c.cbMail) && c.fromReceived == old(c.fromReceived)
+//@   ensures @C03 at-most-one-callback: c.cbMail == old(c.cbMail) || c.cbMail == old(c.cbMail) + 1
+//@   ensures @C03 accepted-only-by-backend: c.fromReceived && !old(c.fromReceived) ==> c.cbMail == old(c.cbMail) + 1 && c.lastCode == 250
+//@   ensures @C03 refused-without-callback-is-5xx: c.cbMail == old(c.cbMail) ==> c.lastCode >= 500 && c.lastCode <= 599
+//@   loop 1:
+//@     invariant opts != nil && !old(alloc(opts))
+//@     invariant c.replies == old(c.replies) && c.cbMail == old(c.cbMail) && c.fromReceived == old(c.fromReceived)
+//@     invariant @C06 size-within-limit: c.server.MaxMessageBytes > 0 ==> opts.Size <= c.server.MaxMessageBytes
+//@     invariant @C12 only-enabled-extensions: (opts.UTF8 ==> c.server.EnableSMTPUTF8) && (opts.RequireTLS ==> c.server.EnableREQUIRETLS) && (opts.Body == "BINARYMIME" ==> c.server.EnableBINARYMIME) && (opts.Return != "" || opts.EnvelopeID != "" ==> c.server.EnableDSN)
+
+//@ contract (*Conn).handleRcpt(c, arg)
+//@   prop C03 C04 C08 C11 C12
+//@   requires connInv(c) && !c.closed
+//@   modifies c.recipients, c.recipients[**], c.replies, c.finals, c.lastCode, c.cbRcpt
+//@   ensures inv: connInv(c) && !c.closed
+//@   ensures @C04 one-reply: c.replies == old(c.replies) + 1
+//@   ensures @C03 out-of-order-refused: !old(c.fromReceived) || old(c.bdatPipe) != nil ==> c.lastCode == 502 && c.cbRcpt == old(c.cbRcpt) && len(c.recipients) == len(old(c.recipients))
+//@   ensures @C03 at-most-one-callback: c.cbRcpt == old(c.cbRcpt) || c.cbRcpt == old(c.cbRcpt) + 1
+//@   ensures @C03 accepted-only-by-backend: len(c.recipients) != len(old(c.recipients)) ==> len(c.recipients) == len(old(c.recipients)) + 1 && c.cbRcpt == old(c.cbRcpt) + 1 && c.lastCode == 250
+//@   ensures @C03 limit-refused-without-callback: c.server.MaxRecipients > 0 && len(old(c.recipients)) >= c.server.MaxRecipients ==> c.cbRcpt == old(c.cbRcpt)
+//@   ensures @C03 refused-without-callback-is-4xx-5xx: c.cbRcpt == old(c.cbRcpt) ==> c.lastCode >= 400 && c.lastCode <= 599
+//@   loop 1:
+//@     invariant opts != nil && !old(alloc(opts))
+//@     invariant c.replies == old(c.replies) && c.cbRcpt == old(c.cbRcpt)
+//@     invariant @C12 only-enabled-extensions: len(opts.Notify) > 0 || opts.OriginalRecipient != "" || opts.OriginalRecipientType != "" ==> c.server.EnableDSN
+//@   loop 2:
+//@     invariant arrOf(notify) == 0 || !old(alloc(arrOf(notify)))
+
+// Parser entry points as seen by the handlers (their own obligations: section "parsing")
+//@ contract (*parser).parseReversePath(p) (s, err)
+//@   prop C11 C19
+//@   requires p != nil
+//@   modifies p.s
+//@ contract (*parser).parsePath(p) (s, err)
+//@   prop C11 C19
+//@   requires p != nil
+//@   modifies p.s
+//@ contract (*parser).parseMailbox(p) (s, err)
+//@   prop C11 C19
+//@   requires p != nil
+//@   modifies p.s
+//@ contract (*parser).parseLocalPart(p) (s, err)
+//@   prop C11 C19
+//@   requires p != nil
+//@   modifies p.s
+//@ contract checkNotifySet(values) (err)
+//@   prop C11 C14 C15 C19
+//@   loop 1:
+//@     invariant seen != nil
+
+//@ contract parseArgs(s) (argMap, err)
+//@   prop C11 C19
+//@   fresh argMap if err == nil
